@@ -147,6 +147,130 @@ theorem encode_eq (n : List Bytes) (hl : n.flatten.length < 2 ^ 62) :
   · simp only [hlen, List.append_assoc]; congr 1 <;> omega
   · simp only [List.length_replicate]; omega
 
+theorem setSliceSameSize_mid (pre rest v : Bytes) (x y : Int) (hx : x = (pre.length : Int))
+    (hy : y = ((pre.length + v.length : Nat) : Int)) (hv : v.length ≤ rest.length) :
+    setSliceSameSize (pre ++ rest) x y v = .ok (pre ++ v ++ rest.drop v.length) := by
+  subst hx hy
+  unfold setSliceSameSize
+  simp only
+  rw [normIdx_nonneg _ _ (by omega), normIdx_nonneg _ _ (by omega)]
+  have e : min ((pre.length : Int)).toNat (pre ++ rest).length = pre.length := by
+    simp only [List.length_append, Int.toNat_natCast]; omega
+  have e2 : min (((pre.length + v.length : Nat) : Int)).toNat (pre ++ rest).length = pre.length + v.length := by
+    simp only [List.length_append, Int.toNat_natCast]; omega
+  rw [e, e2, Nat.max_eq_right (by omega), if_pos (by omega), List.take_left' rfl, List.drop_append]
+  simp [List.drop_of_length_le]
+
+/-- the `for comp in name:` loop of `encode`, whatever kind of buffer: if one iteration writes the component at the
+    offset and advances, the loop writes the components one after the other -/
+theorem encode_loop_gen (f : Bytes → Bytes × Int → Except PyErr (Bytes × Int))
+    (hf : ∀ (comp pre rest : Bytes), comp.length ≤ rest.length →
+      f comp (pre ++ rest, (pre.length : Int)) = .ok (pre ++ comp ++ rest.drop comp.length, ((pre.length + comp.length : Nat) : Int)))
+    (cs : List Bytes) (pre rest : Bytes) (st : Bytes × Int) (hst : st = (pre ++ rest, (pre.length : Int)))
+    (hk : cs.flatten.length ≤ rest.length) :
+    Py.forEach cs st f
+      = .ok (pre ++ cs.flatten ++ rest.drop cs.flatten.length, ((pre.length + cs.flatten.length : Nat) : Int)) := by
+  subst hst
+  induction cs generalizing pre rest with
+  | nil => simp
+  | cons c r ih =>
+    simp only [List.flatten_cons, List.length_append] at hk
+    rw [Py.forEach_cons_ok _ _ _ _ _ (hf c pre rest (by omega))]
+    have := ih (pre ++ c) (rest.drop c.length) (by simp only [List.length_drop]; omega)
+    rw [show pre.length + c.length = (pre ++ c).length by simp, this]
+    simp only [List.flatten_cons, List.length_append, List.append_assoc, List.drop_drop]
+    rw [Nat.add_assoc]
+
+/-- **Name.encode** into a buffer supplied by the caller (not empty), at an offset `0 ≤ o`: `IndexError` when the
+    buffer is too short, otherwise the buffer - which is also what is returned - holds `Ndn.Name.encode name` at the
+    offset and is unchanged elsewhere (every slice assignment of the loop has the size of its component). -/
+theorem encode_into_eq (n : List Bytes) (buf : Bytes) (o : Nat) (hb : buf ≠ []) (hl : n.flatten.length < 2 ^ 62)
+    (ho : o < 2 ^ 62) :
+    Gen.NameGen.encode n (some buf) o =
+      if buf.length < (Name.encode n).length + o then .error .indexError
+      else .ok (buf.take o ++ Name.encode n ++ buf.drop (o + (Name.encode n).length),
+                some (buf.take o ++ Name.encode n ++ buf.drop (o + (Name.encode n).length))) := by
+  simp only [Gen.NameGen.encode, encode_length]
+  rw [reduce_len0, get_tl_num_size_eq]
+  simp only [ok_bind]
+  rw [if_pos hb]
+  have t7 : tlNumSize 7 = 1 := by decide
+  have s2 := tlNumSize_cases n.flatten.length
+  have hlen : Py.len buf = ((buf.length : Nat) : Int) := rfl
+  by_cases hs : buf.length < n.flatten.length + 1 + tlNumSize n.flatten.length + o
+  · rw [if_pos (by omega), if_pos hs]
+  · rw [if_neg (by omega), if_neg hs]
+    have hsplit : buf = buf.take o ++ buf.drop o := (List.take_append_drop o buf).symm
+    have hpre : (buf.take o).length = o := by simp only [List.length_take]; omega
+    have w1 := writeTlNumInto_append (buf.take o) (buf.drop o) 7 (by omega) (by simp only [List.length_drop]; omega)
+    rw [← hsplit, hpre] at w1
+    rw [write_tl_num_ok (7 : Int) (o : Int) rfl rfl (by omega) w1]
+    simp only [ok_bind]
+    have w2 := writeTlNumInto_append (buf.take o ++ writeTlNum 7) ((buf.drop o).drop (tlNumSize 7)) n.flatten.length
+      (by omega) (by simp only [List.length_drop]; omega)
+    have hpre2 : (buf.take o ++ writeTlNum 7).length = o + 1 := by simp [writeTlNum_length, hpre, t7]
+    rw [hpre2] at w2
+    rw [write_tl_num_ok _ ((o : Int) + ((tlNumSize 7 : Nat) : Int)) rfl (by omega) (by omega) w2]
+    simp only [ok_bind]
+    rw [encode_loop_gen (cs := n) (pre := buf.take o ++ writeTlNum 7 ++ writeTlNum n.flatten.length)
+      (rest := ((buf.drop o).drop (tlNumSize 7)).drop (tlNumSize n.flatten.length))]
+    · simp only [ok_bind]
+      show Except.ok _ = Except.ok _
+      have e : buf.take o ++ writeTlNum 7 ++ writeTlNum n.flatten.length ++ n.flatten ++
+          List.drop n.flatten.length (List.drop (tlNumSize n.flatten.length) (List.drop (tlNumSize 7) (List.drop o buf)))
+          = buf.take o ++ Name.encode n ++ buf.drop (o + (n.flatten.length + 1 + tlNumSize n.flatten.length)) := by
+        simp only [List.drop_drop, Name.encode, List.append_assoc, Name.TYPE_NAME]
+        congr 5
+        omega
+      rw [e]
+    · intro comp pre rest hc
+      show (setSliceSameSize _ _ _ _ >>= _) = _
+      rw [setSliceSameSize_mid pre rest comp _ _ rfl (by simp [Py.len]) hc]
+      simp [Py.len]
+      rfl
+    · simp only [List.length_append, writeTlNum_length, hpre, t7]
+      congr 1 <;> omega
+    · simp only [List.length_drop]; omega
+
+/-- the same when an EMPTY buffer is passed (`if not buf` is true for it): a fresh buffer is used, the caller's stays empty -/
+theorem encode_eq_empty (n : List Bytes) (hl : n.flatten.length < 2 ^ 62) :
+    Gen.NameGen.encode n (some []) 0 = .ok (Name.encode n, some []) := by
+  simp only [Gen.NameGen.encode, Name.encode]
+  rw [reduce_len0, get_tl_num_size_eq]
+  simp only [ok_bind]
+  rw [if_neg (by simp)]
+  have t7 : tlNumSize 7 = 1 := by decide
+  have s2 := tlNumSize_cases n.flatten.length
+  rw [bytearrayOfSize_nat _ (n.flatten.length + 1 + tlNumSize n.flatten.length) (by omega) (by omega)]
+  simp only [ok_bind]
+  have w1 := writeTlNumInto_append [] (List.replicate (n.flatten.length + 1 + tlNumSize n.flatten.length) 0) 7
+    (by omega) (by simp only [List.length_replicate]; omega)
+  simp only [List.nil_append, List.length_nil, List.drop_replicate] at w1
+  rw [write_tl_num_ok (7 : Int) (0 : Int) rfl rfl (show (0 : Nat) < 2 ^ 63 by omega) w1]
+  simp only [ok_bind]
+  have w2 := writeTlNumInto_append (writeTlNum 7)
+    (List.replicate (n.flatten.length + 1 + tlNumSize n.flatten.length - tlNumSize 7) 0) n.flatten.length
+    (by omega) (by simp; omega)
+  simp only [writeTlNum_length, List.drop_replicate] at w2
+  rw [write_tl_num_ok _ ((0 : Int) + ((tlNumSize 7 : Nat) : Int)) rfl (by omega) (show tlNumSize 7 < 2 ^ 63 by omega) w2]
+  simp only [ok_bind]
+  have hlen : (writeTlNum 7 ++ writeTlNum n.flatten.length).length = tlNumSize 7 + tlNumSize n.flatten.length := by
+    simp [writeTlNum_length]
+  rw [encode_loop' (cs := n) (pre := writeTlNum 7 ++ writeTlNum n.flatten.length)
+    (rest := List.replicate (n.flatten.length + 1 + tlNumSize n.flatten.length - tlNumSize 7 - tlNumSize n.flatten.length) 0)]
+  · simp only [ok_bind]
+    show Except.ok _ = Except.ok _
+    congr 2
+    simp only [List.drop_replicate, List.append_assoc]
+    have z : n.flatten.length + 1 + tlNumSize n.flatten.length - tlNumSize 7 - tlNumSize n.flatten.length
+        - n.flatten.length = 0 := by omega
+    rw [z]
+    simp [Name.TYPE_NAME]
+  · intro _ _ _; rfl
+  · simp only [hlen, List.append_assoc]; congr 1 <;> omega
+  · simp only [List.length_replicate]; omega
+
+
 theorem parse_size_pos {buf : Bytes} {off v n : Nat} (h : parseTlNum buf off = .ok (v, n)) : 1 ≤ n := by
   have := parseTlNum_size_ge h
   have := tlNumSize_pos v
